@@ -34,6 +34,17 @@
 //   took until the response arrived.
 //   {"kind":"proxy","pre":[op..],"ops":[op..],"steps":n|null,"up_replies":[reply..]}
 //   `up_replies` scripts the upstream mock host like "replies" above.
+//
+// kind "latch" -- pairing at LATCH time: the REAL key keeper (`KeyKeeper::new` +
+//   `poll_secure_channel_status`, fresh `SharedState::start_all()`) polls an in-process mock of the
+//   host's secure-channel endpoints, with key files prepared in its key folder; after every
+//   completed poll the actor's key is read back and the real host calls sign against a mock host.
+//   {"kind":"latch","files":[{"name":"<guid>.key","doc":{..}|"raw":".."}..],
+//    "steps":[{"status":{..status document..},"acquire":{..key document..}|null,"attest":200}..],
+//    "sign":["goalstate","imds"]}
+//   Status request n is withheld until step n is released; its arrival means poll n-1 is complete.
+//   Reported per step: the actor's (guid, value), the key folder (name, content guid), the requests
+//   the signing calls produced, and the key-attestation requests the host received.
 use gpa::host_clients::imds_client::ImdsClient;
 use gpa::host_clients::wire_server_client::WireServerClient;
 use gpa::key_keeper::key::Key;
@@ -557,6 +568,207 @@ async fn run_proxy(sc: &Value) -> Value {
     })
 }
 
+// ------------------------------------------------------------------------------------------
+// kind "latch"
+// ------------------------------------------------------------------------------------------
+struct ScHost {
+    steps: Vec<Value>,
+    arrived: AtomicUsize,
+    released: tokio::sync::watch::Sender<usize>,
+    attests: Mutex<Vec<(usize, Vec<u8>)>>,
+    acquires: AtomicUsize,
+}
+
+async fn sc_reply(st: &mut tokio::net::TcpStream, code: u64, body: &str) {
+    let reason = if code == 200 { "OK" } else { "Status" };
+    let reply = format!(
+        "HTTP/1.1 {} {}\r\nContent-Type: application/json; charset=utf-8\r\nContent-Length: {}\r\nConnection: close\r\n\r\n{}",
+        code, reason, body.len(), body
+    );
+    let _ = st.write_all(reply.as_bytes()).await;
+    let _ = st.shutdown().await;
+}
+
+async fn serve_sc(mut st: tokio::net::TcpStream, host: Arc<ScHost>) {
+    let req = read_request(&mut st).await;
+    if req.is_empty() {
+        return;
+    }
+    let text = String::from_utf8_lossy(&req).to_string();
+    let first = text.split("\r\n").next().unwrap_or("").to_string();
+    let mut parts = first.split(' ');
+    let method = parts.next().unwrap_or("").to_string();
+    let target = parts.next().unwrap_or("").to_string();
+    if method == "GET" && target.starts_with("/secure-channel/status") {
+        let idx = host.arrived.fetch_add(1, Ordering::SeqCst);
+        let mut rx = host.released.subscribe();
+        loop {
+            if *rx.borrow() > idx {
+                break;
+            }
+            if rx.changed().await.is_err() {
+                return;
+            }
+        }
+        match host.steps.get(idx) {
+            Some(step) => {
+                let body = step.get("status").map(|x| x.to_string()).unwrap_or_default();
+                sc_reply(&mut st, 200, &body).await;
+            }
+            None => std::future::pending::<()>().await, // the scenario is over: never answered
+        }
+        return;
+    }
+    let cur = (*host.released.borrow()).saturating_sub(1);
+    let step = host.steps.get(cur).cloned().unwrap_or(Value::Null);
+    if method == "POST" && target == "/secure-channel/key" {
+        host.acquires.fetch_add(1, Ordering::SeqCst);
+        match step.get("acquire") {
+            Some(doc) if !doc.is_null() => sc_reply(&mut st, 200, &doc.to_string()).await,
+            _ => sc_reply(&mut st, 500, "").await,
+        }
+    } else if method == "POST" && target.ends_with("/key-attestation") {
+        host.attests.lock().unwrap().push((cur, req.clone()));
+        let code = step.get("attest").and_then(|x| x.as_u64()).unwrap_or(200);
+        sc_reply(&mut st, code, "").await;
+    } else {
+        sc_reply(&mut st, 404, "").await;
+    }
+}
+
+async fn sign_once(route: &str, kk: KeyKeeperSharedState) -> Vec<String> {
+    let listener = match tokio::net::TcpListener::bind((Ipv4Addr::LOCALHOST, 0)).await {
+        Ok(l) => l,
+        Err(_) => return vec![],
+    };
+    let port = listener.local_addr().map(|a| a.port()).unwrap_or(0);
+    let mock = MockState::new(None, kk.clone());
+    let acc = tokio::spawn({
+        let mock = mock.clone();
+        async move {
+            loop {
+                match listener.accept().await {
+                    Ok((st, _)) => {
+                        tokio::spawn(serve_mock(st, mock.clone()));
+                    }
+                    Err(_) => return,
+                }
+            }
+        }
+    });
+    if let Ok(fut) = make_future(route, port, kk) {
+        let _ = tokio::time::timeout(Duration::from_secs(20), fut).await;
+    }
+    drain().await;
+    acc.abort();
+    let cap = mock.captured.lock().unwrap();
+    cap.iter().map(|r| String::from_utf8_lossy(&r.0).to_string()).collect()
+}
+
+fn key_folder(dir: &std::path::Path) -> Value {
+    let mut out: Vec<(String, Value)> = Vec::new();
+    if let Ok(rd) = std::fs::read_dir(dir) {
+        for e in rd.flatten() {
+            let name = e.file_name().to_string_lossy().to_string();
+            let doc: Value = std::fs::read_to_string(e.path())
+                .ok()
+                .and_then(|t| serde_json::from_str::<Value>(&t).ok())
+                .unwrap_or(Value::Null);
+            out.push((name, doc.get("guid").cloned().unwrap_or(Value::Null)));
+        }
+    }
+    out.sort_by(|a, b| a.0.cmp(&b.0));
+    Value::Array(out.into_iter().map(|(n, g)| json!([n, g])).collect())
+}
+
+static LATCH_SEQ: AtomicUsize = AtomicUsize::new(0);
+
+async fn run_latch(sc: &Value, scratch: &std::path::Path) -> Value {
+    let n = LATCH_SEQ.fetch_add(1, Ordering::SeqCst);
+    let root = scratch.join(format!("latch{}", n));
+    let key_dir = root.join("keys");
+    let log_dir = root.join("logs");
+    let _ = std::fs::create_dir_all(&key_dir);
+    let _ = std::fs::create_dir_all(&log_dir);
+    for f in sc.get("files").and_then(|x| x.as_array()).cloned().unwrap_or_default() {
+        let name = f.get("name").and_then(|x| x.as_str()).unwrap_or("x.key");
+        let content = match f.get("raw").and_then(|x| x.as_str()) {
+            Some(r) => r.to_string(),
+            None => serde_json::to_string_pretty(f.get("doc").unwrap_or(&Value::Null)).unwrap_or_default(),
+        };
+        if let Err(e) = std::fs::write(key_dir.join(name), content) {
+            return json!({"ok": false, "error": format!("write key file: {}", e)});
+        }
+    }
+    let steps = sc.get("steps").and_then(|x| x.as_array()).cloned().unwrap_or_default();
+    let routes: Vec<String> = sc
+        .get("sign")
+        .and_then(|x| x.as_array())
+        .map(|a| a.iter().filter_map(|x| x.as_str().map(|s| s.to_string())).collect())
+        .unwrap_or_default();
+    let listener = match tokio::net::TcpListener::bind((Ipv4Addr::LOCALHOST, 0)).await {
+        Ok(l) => l,
+        Err(e) => return json!({"ok": false, "error": format!("bind secure-channel mock: {}", e)}),
+    };
+    let port = listener.local_addr().map(|a| a.port()).unwrap_or(0);
+    let (tx, _rx) = tokio::sync::watch::channel(0usize);
+    let host = Arc::new(ScHost { steps: steps.clone(), arrived: AtomicUsize::new(0), released: tx, attests: Mutex::new(Vec::new()), acquires: AtomicUsize::new(0) });
+    let acc = tokio::spawn({
+        let host = host.clone();
+        async move {
+            loop {
+                match listener.accept().await {
+                    Ok((st, _)) => {
+                        tokio::spawn(serve_sc(st, host.clone()));
+                    }
+                    Err(_) => return,
+                }
+            }
+        }
+    });
+    let shared = SharedState::start_all();
+    let base_url: hyper::Uri = format!("http://127.0.0.1:{}/", port).parse().unwrap();
+    let keeper = gpa::key_keeper::KeyKeeper::new(base_url, key_dir.clone(), log_dir, Duration::from_millis(2), &shared);
+    let handle = tokio::spawn(async move { keeper.poll_secure_channel_status().await });
+    let kk = shared.get_key_keeper_shared_state();
+    let mut out_steps: Vec<Value> = Vec::new();
+    let mut error: Option<String> = None;
+    for i in 0..steps.len() {
+        let _ = host.released.send(i + 1);
+        // poll i is complete when status request i+1 has arrived
+        let mut ok = false;
+        for _ in 0..200000 {
+            if host.arrived.load(Ordering::SeqCst) >= i + 2 {
+                ok = true;
+                break;
+            }
+            if handle.is_finished() {
+                break;
+            }
+            tokio::time::sleep(Duration::from_micros(200)).await;
+        }
+        if !ok {
+            error = Some(format!("poll {} did not complete", i));
+            break;
+        }
+        drain().await;
+        let guid = kk.get_current_key_guid().await.unwrap_or(None);
+        let value = kk.get_current_key_value().await.unwrap_or(None);
+        let mut signed = serde_json::Map::new();
+        for r in routes.iter() {
+            signed.insert(r.clone(), json!(sign_once(r, kk.clone()).await));
+        }
+        out_steps.push(json!({"key_guid": guid, "key_value": value, "key_folder": key_folder(&key_dir),
+                              "acquires": host.acquires.load(Ordering::SeqCst), "signed": signed}));
+    }
+    shared.get_cancellation_token().cancel();
+    let _ = tokio::time::timeout(Duration::from_secs(5), handle).await;
+    acc.abort();
+    let attests: Vec<Value> = host.attests.lock().unwrap().iter().map(|(i, r)| json!([i, String::from_utf8_lossy(r).to_string()])).collect();
+    let _ = std::fs::remove_dir_all(&root);
+    json!({"ok": error.is_none(), "error": error, "steps": out_steps, "attests": attests})
+}
+
 pub fn main() {
     let scratch = std::path::PathBuf::from(std::env::var("C10_SCRATCH").expect("C10_SCRATCH must name a scratch directory"));
     for d in ["logs", "events", "keys"] {
@@ -595,6 +807,7 @@ pub fn main() {
                 Ok(sc) => match sc.get("kind").and_then(|x| x.as_str()) {
                     Some("hand") => run_hand(&sc).await,
                     Some("proxy") => run_proxy(&sc).await,
+                    Some("latch") => run_latch(&sc, &scratch).await,
                     _ => json!({"ok": false, "error": "unknown kind"}),
                 },
             };
